@@ -14,9 +14,16 @@ Types (immutable tuples):
                                      initialization, so the model never sees them: they exist in decl() only.
 
 Initializers (mutable, thawed from the generator's tuples):
-  {'k':'a', 'style':..}                      assignment-expression (text/value filled in when it lands on a leaf)
-  {'k':'s', 'elem':key, 'len':L, 'u8':bool}  string literal
+  {'k':'a', 'style':..}                      assignment-expression (text/value filled in when it lands on a leaf);
+                                             style 'plain' | 'cross' | ('pa', j) address constant PTR_ATOMS[type][j] |
+                                             ('na', j) arithmetic constant NUM_ATOMS[j]
+  {'k':'s', 'elem':key, 'len':L, 'u8':bool, 'var':v}  string literal; v None (letters) or one of STRVARS (embedded
+                                             null characters, escape sequences / extended characters)
   {'k':'l', 'items':[(desig, ini)..], 'tc':bool}   braced list; desig = None | [('f',name)|('i',i)|('r',a,b)..]
+
+Leaf values ("dump encoding", one or two longs per leaf): integers and _Bool by value, pointers as (object, offset)
+codes, floating leaves BYTEWISE: the 4 bytes of a float, the 8 bytes of a double, the 10 significant bytes of an x87
+long double (two dump slots: bytes 0..7 and bytes 8..9), computed exactly (Fraction arithmetic, ties to even).
 
 evaluate(ty, ini) walks the initializer exactly as 6.7.9 p17-p21 describe (current object, designators reset it,
 brace elision descends to the first subobject, later initializers override earlier ones for the same subobject, a braced
@@ -82,6 +89,135 @@ PTR_ATOMS = {
             ('(int(*)(void))FN(fn1)', 5, 0), ('**FN(fn0)', 4, 0), ('&*FN(fn1)', 5, 0)],
 }
 NPLAIN = 8
+
+
+# ---- floating formats: exact round-to-nearest-even from a Fraction, bytewise encoding ------------------------
+# key: (precision p in bits incl. the integer bit, minimum normal exponent emin, maximum exponent emax, exponent bias)
+FMT = {'float': (24, -126, 127, 127), 'double': (53, -1022, 1023, 1023), 'ldouble': (64, -16382, 16383, 16383)}
+
+
+class Num:
+    """Value of an arithmetic constant expression: exact value `frac` (already rounded to the precision of the
+    expression's own type), `flt` = the expression has floating type, `negzero` = it is a floating negative zero."""
+    __slots__ = ('frac', 'flt', 'negzero')
+
+    def __init__(self, frac, flt, negzero=False):
+        self.frac, self.flt, self.negzero = Fraction(frac), flt, negzero
+
+
+def fround(x, key):
+    """Fraction -> (m, e): the value of format `key` nearest to |x| (ties to even), as m * 2**(e - (p-1)) with
+    m < 2**p; subnormals have e == emin and m < 2**(p-1).  IEC 60559 roundTiesToEven, which Annex F prescribes for
+    conversions and constants and which both reference compilers implement."""
+    p, emin, emax, _ = FMT[key]
+    a = abs(Fraction(x))
+    if a == 0:
+        return 0, emin
+    e = a.numerator.bit_length() - a.denominator.bit_length()
+    if Fraction(2) ** e > a:
+        e -= 1
+    e = max(e, emin)
+    q = a / Fraction(2) ** (e - (p - 1))
+    m = q.numerator // q.denominator
+    r = q - m
+    if r > Fraction(1, 2) or (r == Fraction(1, 2) and m & 1):
+        m += 1
+    if m == 1 << p:
+        m >>= 1
+        e += 1
+    if e > emax:
+        raise Invalid("floating overflow")
+    return m, e
+
+
+def fvalue(x, key):
+    """x rounded to format key, as a Fraction."""
+    m, e = fround(x, key)
+    v = Fraction(m) * Fraction(2) ** (e - (FMT[key][0] - 1))
+    return -v if x < 0 else v
+
+
+def fbits(x, key, neg=None):
+    """Object representation of x converted to format key: an int for float (4 bytes) and double (8 bytes, taken as
+    a signed 64-bit number like the dump), (low 8 bytes, bytes 8..9) for the x87 extended format."""
+    p, emin, emax, bias = FMT[key]
+    m, e = fround(x, key)
+    sign = 1 if (x < 0 if neg is None else neg) else 0
+    if key == 'ldouble':
+        be = 0 if m < (1 << 63) else e + bias
+        lo = m - (1 << 64) if m >= (1 << 63) else m
+        return (lo, (sign << 15) | be)
+    if m < (1 << (p - 1)):
+        be, fr = 0, m
+    else:
+        be, fr = e + bias, m - (1 << (p - 1))
+    w = (sign << (FMT[key][0] - 1 + (8 if key == 'float' else 11))) | (be << (p - 1)) | fr
+    if key == 'double' and w >= (1 << 63):
+        w -= 1 << 64
+    return w
+
+
+# Arithmetic constants chosen to tell the three floating formats and single from double rounding apart (style ('na', j)).
+# (text, type of the expression, exact mathematical value before it is rounded to that type)
+F = Fraction
+NUM_ATOMS = [
+    ('0.1', 'double', F(1, 10)), ('0.1f', 'float', F(1, 10)), ('0.1L', 'ldouble', F(1, 10)),
+    ('1.0L/3', 'ldouble', F(1, 3)), ('-0.3L', 'ldouble', F(-3, 10)), ('1.0f/3', 'float', F(1, 3)), ('1.0/3', 'double', F(1, 3)),
+    ('(float)0.1', 'float', F(1, 10)), ('(double)0.1L', 'double', F(1, 10)),
+    # just above / below a rounding midpoint of float and of double (exact in long double): a detour through double,
+    # or through float, rounds twice and lands on the other neighbour
+    ('0x1.000001000000001p0L', 'ldouble', 1 + F(1, 2**24) + F(1, 2**60)),
+    ('0x1.000002fffffffffep0L', 'ldouble', 1 + F(3, 2**24) - F(1, 2**63)),
+    ('-0x1.000001000000001p3L', 'ldouble', -8 * (1 + F(1, 2**24) + F(1, 2**60))),
+    ('0x1.000005000000001p-7L', 'ldouble', (1 + F(5, 2**24) + F(1, 2**60)) / 128),
+    ('0x1.0000000000000802p0L', 'ldouble', 1 + F(1, 2**53) + F(1, 2**63)),
+    ('0x1.00000000000017fep0L', 'ldouble', 1 + F(3, 2**53) - F(1, 2**63)),
+    # exact ties (to even: down, up) of float and double
+    ('0x1.000001p0', 'double', 1 + F(1, 2**24)), ('0x1.000003p0', 'double', 1 + F(3, 2**24)),
+    ('0x1.00000000000008p0L', 'ldouble', 1 + F(1, 2**53)), ('-0x1.00000000000018p0L', 'ldouble', -1 - F(3, 2**53)),
+    # large integers: 2^24+1, 2^53+1, 2^64-1, 2^63-1 as floating constants and as integer constants
+    ('16777217.0', 'double', 2**24 + 1), ('9007199254740993.0L', 'ldouble', 2**53 + 1),
+    ('18446744073709551615.0L', 'ldouble', 2**64 - 1), ('0x7fffffffffffffffp0L', 'ldouble', 2**63 - 1),
+    ('18446744073709549568.0', 'double', 2**64 - 2048),
+    ('16777217', 'int', 2**24 + 1), ('-16777219', 'int', -(2**24 + 3)), ('9007199254740993', 'long', 2**53 + 1),
+    ('18446744073709551615u', 'ulong', 2**64 - 1), ('4294967295u', 'uint', 2**32 - 1),
+    # sign of zero, truncation toward zero, subnormals, largest float
+    ('-0.0', 'double', 'negzero'), ('2.9', 'double', F(29, 10)), ('-2.9f', 'float', F(-29, 10)), ('255.9', 'double', F(2559, 10)),
+    ('0x1.8p-1070', 'double', F(3, 2) / 2**1070), ('0x1.8p-149', 'double', F(3, 2) / 2**149), ('0x1.fffffep127f', 'float', (2 - F(1, 2**23)) * 2**127),
+]
+del F
+INT_LEAF_SMALL = ('0.1', '-0.3L', '-0.0', '0x1.000001000000001p0L', '0x1.8p-1070', '(float)0.1')
+INTSRC = {'int': (32, True), 'uint': (32, False), 'long': (64, True), 'ulong': (64, False)}
+
+
+def num_atom(j):
+    """-> (text, Num, source type key)"""
+    text, src, exact = NUM_ATOMS[j]
+    if exact == 'negzero':
+        return text, Num(0, True, True), src
+    if src in INTSRC:
+        return text, Num(exact, False), src
+    return text, Num(fvalue(exact, src), True), src
+
+
+def num_atoms_for(t):
+    """Indices of the NUM_ATOMS whose conversion to arithmetic leaf type t is defined by C11 (a floating value whose
+    integral part does not fit an integer type is undefined, 6.3.1.4; out-of-range to a signed type is
+    implementation-defined, 6.3.1.3)."""
+    out = []
+    isint = SC[t[1]][0] != 'flt'
+    for j in range(len(NUM_ATOMS)):
+        st = State()
+        try:
+            v = num_atom(j)[1]
+            conv(t, v, st)
+        except Invalid:
+            continue
+        if isint and abs(v.frac) < 2 and NUM_ATOMS[j][0] not in INT_LEAF_SMALL:
+            continue            # 0.1, 0.1f, 1.0L/3, ... all truncate to 0 or 1: a few representatives are enough for integer leaves
+        if not st.undefined:
+            out.append(j)
+    return out
 
 
 def str_hash(text):
@@ -257,6 +393,11 @@ def conv(t, v, st):
         if v[1] == STR:
             return v[2]
         return ptr_code(v[1], v[2])
+    isflt, neg = None, None
+    if isinstance(v, Num):
+        if kind == 'ptr':
+            raise Invalid("arithmetic constant to pointer")
+        isflt, neg, v = v.flt, (True if v.negzero else None), v.frac
     if kind == 'ptr':
         if v != 0:
             raise Invalid("integer to pointer")
@@ -264,15 +405,13 @@ def conv(t, v, st):
     if kind == 'bool':
         return 1 if v != 0 else 0
     if kind == 'flt':
-        x = Fraction(v) * 16
-        if x.denominator != 1:
-            raise Invalid("value not representable in dump encoding")
-        return int(x)
+        # the object representation: 4 / 8 / 10 significant bytes (see fbits)
+        return fbits(Fraction(v), t[1], neg)
     iv = int(v)         # truncation toward zero (6.3.1.4)
     lo, hi = (-(1 << (bits - 1)), (1 << (bits - 1)) - 1) if signed else (0, (1 << bits) - 1)
     if lo <= iv <= hi:
         return iv
-    if Fraction(v).denominator != 1:
+    if Fraction(v).denominator != 1 or isflt:
         st.undefined = "floating value out of range of integer type"
         return 0
     if signed:
@@ -291,7 +430,16 @@ def assign_atom(a, t, st):
     kind = SC[t[1]][0]
     base = 11 + n
     style = a.get('style', 'plain')
-    if style == 'plain' or style[0] == 'pa':
+    if style[0] == 'na':
+        if kind == 'ptr' or style[1] >= len(NUM_ATOMS):
+            raise Invalid("arithmetic constant for a pointer")
+        a['text'], a['val'], src = num_atom(style[1])
+        st.flags.add('num:' + (src if src in FMT else 'integer'))
+        if kind == 'flt':
+            st.flags.add('to:' + t[1])
+        elif Fraction(a['val'].frac).denominator != 1 or abs(a['val'].frac) >= 2 ** 53:
+            st.flags.add('to:integer')
+    elif style == 'plain' or style[0] == 'pa':
         if kind == 'ptr':
             if style == 'plain':
                 ent = PTR_ATOMS[t[1]][(n + st.salt) % NPLAIN]
@@ -334,12 +482,57 @@ def assign_str(s, st):
     n = st.n
     st.n += 1
     s['n'] = n
-    chars = [chr(97 + (n * 3 + j) % 26) for j in range(s['len'])]
     pre = CHARLIKE[s['elem']]
     if s.get('u8') and pre == '':
         pre = 'u8'
-    s['text'] = '%s"%s"' % (pre, "".join(chars))
-    s['codes'] = [ord(c) for c in chars]
+    body, s['codes'] = str_content(n, s['len'], pre, s.get('var'))
+    s['text'] = '%s"%s"' % (pre, body)
+    if s.get('var'):
+        st.flags.add('string-escape' if s['var'].startswith('esc') else 'string-nul')
+
+
+STRVARS = ('nul0', 'nulm', 'null', 'nul2', 'esc', 'esc3', 'esc7')
+# escape sequences / extended characters of the 'esc' variant: (spelling, element values in a narrow literal [the
+# elements of "..." and u8"..." have type char, which is signed here], in a u"" literal [UTF-16: a character beyond the
+# BMP is a surrogate pair], in a U"" / L"" literal).
+# No spelling is a prefix of a longer escape when a letter a-z or another piece follows (\x7f is followed by a non-hex
+# piece by construction, \377 has three octal digits).
+ESC_PIECES = [('\\n', [10], [10], [10]), ('\\377', [-1], [255], [255]), ('\u00e9', [-61, -87], [0xe9], [0xe9]), ('\\x7f', [127], [127], [127]),
+              ('\\\\', [92], [92], [92]), ('\u20ac', [-30, -126, -84], [0x20ac], [0x20ac]), ('\\"', [34], [34], [34]),
+              ('\U0001f600', [-16, -97, -104, -128], [0xd83d, 0xde00], [0x1f600]), ('\\0', [0], [0], [0]), ('\\t', [9], [9], [9])]
+
+
+def str_content(n, L, pre, var):
+    """Body and element values (before conversion to the array's element type) of string atom number n with L elements.
+    var None: letters; 'nul0' / 'nulm' / 'null': an embedded \\0 at the first / middle / last position; 'nul2': at
+    positions 0 and 1; 'esc' / 'esc3' / 'esc7': escape sequences and extended characters, starting with piece 0 / 3 / 7 of
+    ESC_PIECES (a multibyte character of a narrow literal counts one element per byte, a character beyond the BMP two
+    elements of a u"" literal)."""
+    letters = [chr(97 + (n * 3 + j) % 26) for j in range(L)]
+    if var is None:
+        return "".join(letters), [ord(c) for c in letters]
+    if var in ('esc', 'esc3', 'esc7'):
+        col = {'u': 2, 'U': 3, 'L': 3}.get(pre, 1)
+        body, codes, k = "", [], int(var[3:] or 0)        # first piece: ESC_PIECES[0], [3], [7] (independent of n)
+        while len(codes) < L:
+            for d in range(len(ESC_PIECES)):
+                ent = ESC_PIECES[(k + d) % len(ESC_PIECES)]
+                sp, cs = ent[0], ent[col]
+                if len(codes) + len(cs) <= L and not (body.endswith('\\x7f') and sp[0] != '\\'):
+                    break
+            else:
+                raise Invalid("no escape piece fits")
+            body += sp
+            codes += cs
+            k += d + 1
+        return body, codes
+    if var not in STRVARS:
+        raise Invalid("string variant")
+    pos = {'nul0': [0], 'nulm': [L // 2], 'null': [L - 1], 'nul2': [0, 1]}[var]
+    pos = [i for i in pos if 0 <= i < L]
+    if not pos:
+        raise Invalid("no room for an embedded NUL")
+    return "".join('\\0' if j in pos else c for j, c in enumerate(letters)), [0 if j in pos else ord(c) for j, c in enumerate(letters)]
 
 
 def step(o, t, i, st):
@@ -495,6 +688,9 @@ def leaves(o, t, acc):
     """[(accessor suffix, leaf type, expected dump value)] ; unions: only the active member (all members when the
     union was never mentioned: all-zero bits)."""
     k = t[0]
+    if k == 'sc' and t[1] == 'ldouble':
+        lo, hi = o.val if o.val is not None else (0, 0)
+        return [(acc, ('sc', 'ldouble', 'lo'), lo), (acc, ('sc', 'ldouble', 'hi'), hi)]
     if k in ('sc', 'bf'):
         return [(acc, t, o.val or 0)]
     out = []
@@ -532,9 +728,9 @@ def render(ini):
 
 
 def thaw(x, tc=False):
-    """generator tuple -> mutable initializer.  ('a', style) | ('s', elem, len, u8) | ('l', items, tc)"""
+    """generator tuple -> mutable initializer.  ('a', style) | ('s', elem, len, u8[, variant]) | ('l', items, tc)"""
     if x[0] == 'a':
         return {'k': 'a', 'style': x[1]}
     if x[0] == 's':
-        return {'k': 's', 'elem': x[1], 'len': x[2], 'u8': x[3]}
+        return {'k': 's', 'elem': x[1], 'len': x[2], 'u8': x[3], 'var': x[4] if len(x) > 4 else None}
     return {'k': 'l', 'items': [(list(d) if d else None, thaw(s, tc)) for d, s in x[1]], 'tc': x[2] or tc}
